@@ -5,8 +5,9 @@ CONSTANTS Tok = {}
           LenRed = 0
           LenUri = 0
           LenName = 0
+          LenNameW = 0
           Devs = @DEVS@
-INVARIANTS Idempotent NoDots PrintedIsCanonical SameRootCid MutableHasNoCid UriEqualsPath TrailingSlashKept
+INVARIANTS Idempotent NoDots PrintedIsCanonical SameRootCid MutableHasNoCid UriEqualsPath TrailingSlashKept BinaryLaws
 CONSTRAINT TraceConstraint
 POSTCONDITION TracePost
 CHECK_DEADLOCK FALSE
